@@ -8,7 +8,7 @@
 From Verif Require Import Base.Prelude Model.Tree Model.Spec Model.VM Model.Writer Gen.RunnerGen
   Proofs.SpecProofs Proofs.SpecBoundsProofs Proofs.MaskProofs
   Proofs.VMU Proofs.VMUOps Proofs.VMUOps2 Proofs.VMUOps6 Proofs.VMUOps3 Proofs.CompileBase
-  Proofs.CompileDefs Proofs.CompileStage1 Proofs.CompileLoop Proofs.CompileCharLoop Proofs.CompileMulti Proofs.CompileStage4.
+  Proofs.CompileDefs Proofs.CompileStage1 Proofs.CompileLoop Proofs.CompileCharLoop Proofs.CompileMulti Proofs.CompileStage4 Proofs.CompileCond.
 From Coq Require Import Relations ZifyBool.
 
 Section CC.
@@ -52,6 +52,14 @@ Proof.
     + apply cc_poslook; [exact tc_nonneg|]. apply IH'; [exact Hs|]. destruct Hg as [_ Hg]. exact Hg.
     + apply cc_neglook; [exact tc_nonneg|]. apply IH'; [exact Hs|]. destruct Hg as [_ Hg]. exact Hg.
     + apply cc_atomic; [exact tc_nonneg|]. apply IH'; [exact Hs|]. destruct Hg as [_ Hg]. exact Hg.
+    + cbn [supported] in Hs. apply andb_prop in Hs. destruct Hs as [Hsy Hsn].
+      destruct Hg as [Hg0 [Hgy Hgn]].
+      apply cc_backrefcond; [exact tc_nonneg|apply IH'; assumption| |exact Hg0].
+      destruct no as [x|]; [apply IH'; assumption|exact I].
+    + cbn [supported] in Hs. apply andb_prop in Hs. destruct Hs as [Hs Hsn]. apply andb_prop in Hs. destruct Hs as [Hsc Hsy].
+      destruct Hg as [_ [Hgc [Hgy Hgn]]].
+      apply cc_exprcond; [exact tc_nonneg|apply IH'; assumption|exact Hsc|apply IH'; assumption|].
+      destruct no as [x|]; [apply IH'; assumption|exact I].
 Qed.
 
 Theorem compile_correct_partial : forall fuel t s res,
